@@ -245,7 +245,15 @@ Definition apply_transaction (P : params) (L : lview) (below : list layer) (l : 
   payment P L below l1 tx.
 
 (* ------------------------------------------------------------------ transaction *)
-Record env := mkEnv { e_P : params; e_validate : bool; e_generate : bool; e_rnd : N }.
+(* [e_cap] = eval.maxTxnBytesPerBlock: the node-local cap on the block size handed to
+   StartEvaluator by the transaction pool, normalised by [eff_cap]; the Load of the header is
+   always relative to the protocol's MaxTxnBytesPerBlock *)
+Record env := mkEnv { e_P : params; e_validate : bool; e_generate : bool; e_rnd : N; e_cap : N }.
+
+(* StartEvaluator: "if the caller did not provide a valid block size limit, default to the
+   consensus params" *)
+Definition eff_cap (P : params) (cap : N) : N :=
+  if (cap =? 0) || (p_maxbytes P <? cap) then p_maxbytes P else cap.
 
 (* BlockEvaluator.checkMinBalance over the accounts modified in this cow *)
 Fixpoint check_min_balance (P : params) (L : lview) (ls : list layer) (addrs : list N) : res unit :=
@@ -303,7 +311,7 @@ Fixpoint group_loop (E : env) (L : lview) (parent c : layer) (blockbytes gbytes 
     do r1 <- transaction E L parent c s ;
     let '(c1, s') := r1 in
     let gbytes1 := if e_validate E then gbytes + t_len (fst s) else gbytes in
-    if e_validate E && (p_maxbytes (e_P E) <? blockbytes + gbytes1) then Err E_NOSPACE else
+    if e_validate E && (e_cap E <? blockbytes + gbytes1) then Err E_NOSPACE else
     do r2 <- group_loop E L parent c1 blockbytes gbytes1 r ;
     let '(c2, ss, gb) := r2 in
     Ok (c2, s' :: ss, gb)
@@ -457,7 +465,7 @@ Definition end_of_block (E : env) (L : lview) (hdr : header) (ev : evst) : res (
 (* ------------------------------------------------------------------ Eval, GenerateBlock *)
 (* eval.Eval(ctx, l, blk, validate, ...): the StateDelta is the evaluator's top cow *)
 Definition eval_block (P : params) (validate : bool) (L : lview) (blk : block) : res layer :=
-  let E := mkEnv P validate false (h_round (b_hdr blk)) in
+  let E := mkEnv P validate false (h_round (b_hdr blk)) (p_maxbytes P) in
   do r <- start E L (b_hdr blk) ;
   let '(hdr1, l0) := r in
   do ev <- run_groups E L (mkEv l0 [] 0) (b_payset blk) ;
@@ -478,14 +486,46 @@ Record ublock := mkUB { ub_hdr : header; ub_payset : list group; ub_delta : laye
 Definition hdr_template (rnd bonus : N) : header := mkHdr rnd bonus 0 0 0 [] 0 0 0 0.
 
 (* StartEvaluator(Generate, Validate) + TransactionGroup over the pool + GenerateBlock *)
-Definition eval_generate (P : params) (L : lview) (rnd bonus : N) (pool : list group) (parts : list N) : res ublock :=
-  let E := mkEnv P true true rnd in
+Definition eval_generate_cap (P : params) (cap : N) (L : lview) (rnd bonus : N) (pool : list group) (parts : list N) : res ublock :=
+  let E := mkEnv P true true rnd (eff_cap P cap) in
   do r <- start E L (hdr_template rnd bonus) ;
   let '(hdr1, l0) := r in
   let ev := gen_groups E L (mkEv l0 [] 0) pool in
   do r2 <- end_of_block E L hdr1 ev ;
   let '(hdr2, top) := r2 in
   Ok (mkUB hdr2 (ev_payset ev) top (map (fun a => (a, lookup L [top] a)) parts)).
+
+(* the default: no node-local cap *)
+Definition eval_generate (P : params) := eval_generate_cap P 0.
+
+(* The transaction pool stops feeding the evaluator at the first group that does not fit
+   (ErrNoSpace) and calls GenerateBlock right away (addToPendingBlockEvaluatorOnce): the pool
+   as the evaluator sees it for this block is the prefix up to and including that group. *)
+Fixpoint pool_until_full (E : env) (L : lview) (ev : evst) (pool : list group) : list group :=
+  match pool with
+  | [] => []
+  | g :: r => match transaction_group E L ev g with
+              | Ok ev1 => g :: pool_until_full E L ev1 r
+              | Err e => if e =? E_NOSPACE then [g] else g :: pool_until_full E L ev r
+              end
+  end.
+
+Definition eval_generate_full (P : params) (cap : N) (L : lview) (rnd bonus : N) (pool : list group) (parts : list N) : res ublock :=
+  let E := mkEnv P true true rnd (eff_cap P cap) in
+  match start E L (hdr_template rnd bonus) with
+  | Err e => Err e
+  | Ok (_, l0) => eval_generate_cap P cap L rnd bonus (pool_until_full E L (mkEv l0 [] 0) pool) parts
+  end.
+
+(* ------------------------------------------------------------------ counters as functions of the payset *)
+(* what eval.blockTxBytes, the transaction count and feesCollected must be, read off the final
+   payset alone (no memory of groups that were tried and dropped) *)
+Definition payset_txns (ps : list group) : list stib := concat (map g_txns ps).
+Definition payset_bytes (ps : list group) : N := fold_right (fun s acc => t_len (fst s) + acc) 0 (payset_txns ps).
+Definition payset_count (ps : list group) : N := N.of_nat (length (payset_txns ps)).
+Definition txns_fees (L : lview) (txs : list stib) : N :=
+  fold_right (fun s acc => (if t_snd (fst s) =? lv_sink L then 0 else t_fee (fst s)) + acc) 0 txs.
+Definition payset_fees (L : lview) (ps : list group) : N := txns_fees L (payset_txns ps).
 
 Definition set_proposer (h : header) (p : N) : header :=
   mkHdr (h_round h) (h_bonus h) p (h_genhash h) (h_rs h) (h_root h) (h_counter h) (h_fees h) (h_payout h) (h_load h).
